@@ -982,6 +982,45 @@ def check_concat(pieces, fixes, name, vals):
     return None
 
 
+def check_concat_differing(rng, angle_sets, active):
+    """results whose other coordinates have the same length but different values (other angles per site): every value is still found at
+    its own coordinates after the concatenation"""
+    from smrt.core.result import concat_results
+    from smrt.core import sensor as cs
+    sens = [(cs.active(13e9, list(a)) if active else cs.passive(37e9, list(a))) for a in angle_sets]
+    pieces = [stub_result(x, rng) for x in sens]
+    vals = list(range(len(pieces)))
+    try:
+        cat = concat_results(pieces, ("time", vals))
+    except Exception as e:  # noqa
+        return ("concat:raises", f"concat_results of results with angles {angle_sets} raises {type(e).__name__}: {str(e)[:80]}", "the concatenated result")
+    for v, p in zip(vals, pieces):
+        try:
+            sub = cat.data.sel(drop=True, time=v).sel(**{d: p.data.coords[d].values for d in p.data.dims})
+        except Exception as e:  # noqa
+            return ("concat:coordinates", f"after concat_results of results with angles {angle_sets}, the coordinates of piece time={v} are gone "
+                    f"({type(e).__name__}: {str(e)[:80]})", "every coordinate kept")
+        if not same_map(sub, p.data):
+            return ("concat:coordinates", f"after concat_results of results with angles {angle_sets}, the values of piece time={v} are not at its own "
+                    f"coordinates", out_res(p.data)[:200])
+    return None
+
+
+def check_sensorlist_order(channels):
+    """a multi-channel altimeter built with an explicit channel list in any order: the labels of `configurations()` and the sensors of
+    `iterate()` pair up (what Model.run relies on to label the results)"""
+    from smrt.inputs import altimeter_list as al
+    s = al.envisat_ra2(list(channels))
+    axis, vals = next(iter(s.configurations()))
+    subs = list(s.iterate(axis))
+    ref = {ch: al.envisat_ra2(ch).frequency for ch in channels}
+    for label, sub in zip(vals, subs):
+        if float(sub.frequency) != float(ref[label]):
+            return ("sensorlist:order", f"envisat_ra2({list(channels)}): configurations() labels {list(vals)} but iterate() yields frequencies "
+                    f"{[float(x.frequency) for x in subs]}: label {label!r} is paired with {float(sub.frequency):g} Hz", f"{float(ref[label]):g} Hz")
+    return None
+
+
 def check_custom(fname, freqs):
     from smrt.inputs import sensor_list as sl
     s = getattr(sl, fname)(frequency=list(freqs))
@@ -1100,6 +1139,12 @@ def _oracle(ctx, hints, effort):
                           [: (2 if effort == "routine" else 4)]):
         evals += 1
         record(lambda: check_channel_sequence(getattr(s, "name", "sensor"), s, rng), {"kind": "channel_sequence", "index": j})
+    for sets, act in (([[35.], [45.]], True), ([[20., 30.], [30., 40.], [40., 50.]], True), ([[25., 40.], [40., 55.]], False)):
+        evals += 1
+        record(lambda: check_concat_differing(rng, sets, act), {"kind": "concat_differing", "sets": sets, "active": act})
+    for chans in (["S", "Ku"], ["Ku", "S"]):
+        evals += 1
+        record(lambda: check_sensorlist_order(chans), {"kind": "sensorlist_order", "channels": chans})
     # save / open
     for s in [sl.amsre("37V"), sl.quikscat(), sl.smos()][: (1 if effort == "routine" else 3)]:
         evals += 1
@@ -1186,6 +1231,10 @@ def _replay(inp, rp=None):
     elif k == "channel_sequence":
         s = [sl.amsre(["19", "37"]), sl.sentinel1([20, 30, 40]) if hasattr(sl, "sentinel1") else sl.quikscat(), sl.smos(), sl.quikscat()][inp["index"]]
         r = check_channel_sequence(getattr(s, "name", "sensor"), s, rng)
+    elif k == "concat_differing":
+        r = check_concat_differing(rng, inp["sets"], inp["active"])
+    elif k == "sensorlist_order":
+        r = check_sensorlist_order(inp["channels"])
     elif k == "custom":
         r = check_custom(inp["ctor"], inp["frequency"])
     elif k == "plugin":
